@@ -67,3 +67,31 @@ contract(F, "UnionProvider._single_optional_dt_loader.<locals>.optional_dt_loade
                "error": (f"implies(raised, len({SUB}) == 2 and type({SUB}[0]) is TypeLoadError and {SUB}[0].input_value is data "
                          f"and is_err({SUB}[1], loader, data) and trail_unchanged({SUB}[1]))")},
          cover=["returned", "raised"])
+
+
+# ---- C06 with user-supplied case loaders that may raise *any* exception ("for any type, recipe and input") -------
+# mode-independent rule: case c answers iff it accepts and every earlier case declined with a LoadError; a non-LoadError
+# of an earlier case is not swallowed in any mode.
+PRIOR_LE = "forall(lambda j: implies(0 <= j and j < {c}, not ok(loaders[j], data) and issub(errcls(loaders[j], data), LoadError)))"
+ANY_POST = {
+    "accept-iff": (f"returned == exists(lambda c: 0 <= c and c < {NL} and ok({LS}[c], data) and {PRIOR_LE.format(c='c')})"),
+    "value": (f"implies(returned, exists(lambda c: 0 <= c and c < {NL} and ok({LS}[c], data) and {PRIOR_LE.format(c='c')} "
+              f"and result == res({LS}[c], data)))"),
+}
+ANY_CP = {"accept-iff": ["C06"], "value": ["C06"], "modifies-nothing": ["C20"]}
+PRIOR_INV = "forall(lambda j: implies(0 <= j and j < _i, not ok(loader_iter[j], data) and issub(errcls(loader_iter[j], data), LoadError)))"
+contract(F, "UnionProvider._get_loader_dt_disable.<locals>.union_loader", name=F + ":union_loader[any-exception]",
+         props=["C06"], via=Via("UnionProvider._get_loader_dt_disable", {"": lambda m: m.UnionProvider()}, args={"loaders": "seq:ANY"}),
+         params={"data": "D"}, post=ANY_POST, loops={0: LoopSpec(inv=[PRIOR_INV])}, clause_props=ANY_CP, cover=["returned", "raised"])
+contract(F, "UnionProvider._get_loader_dt_first.<locals>.union_loader_dt_first", name=F + ":union_loader_dt_first[any-exception]",
+         props=["C06"], via=Via("UnionProvider._get_loader_dt_first", {"": lambda m: m.UnionProvider()}, args={"tp": "sym", "loaders": "seq:ANY"}),
+         params={"data": "D"}, post=ANY_POST, loops={0: LoopSpec(inv=[PRIOR_INV])}, clause_props=ANY_CP, cover=["returned", "raised"])
+# ALL: an unexpected error does not stop the scan, but nothing is returned after it
+ALL_INV = ("has_unexpected_error == exists(lambda j: 0 <= j and j < _i and not ok(loader_iter[j], data) and "
+           "not issub(errcls(loader_iter[j], data), LoadError))")
+contract(F, "UnionProvider._get_loader_dt_all.<locals>.union_loader_dt_all", name=F + ":union_loader_dt_all[any-exception]",
+         props=["C06"], via=Via("UnionProvider._get_loader_dt_all", {"": lambda m: m.UnionProvider()}, args={"tp": "sym", "loaders": "seq:ANY"}),
+         params={"data": "D"}, post=ANY_POST,
+         loops={0: LoopSpec(inv=[ALL_INV, "forall(lambda c: implies(0 <= c and c < _i and ok(loader_iter[c], data), exists(lambda j: 0 <= j and j < c and "
+                                 "not ok(loader_iter[j], data) and not issub(errcls(loader_iter[j], data), LoadError))))"])},
+         clause_props=ANY_CP, cover=["returned", "raised"])
